@@ -512,6 +512,11 @@ class CallGraph:
         return seen
 
 
+class _Regions(dict):
+    """variant -> blocks; .explicit = the variants that have a switch target of their own (the others share the wildcard arm)"""
+    explicit = frozenset()
+
+
 def variant_regions(fn, enum_path, root_param=None):
     """For the outermost `match` on a value of enum `enum_path` in fn: {variant name: set of blocks dominated by the
     variant's switch target}. Or-patterns share a target and therefore a region. Returns (regions, switch_block)."""
@@ -540,7 +545,8 @@ def variant_regions(fn, enum_path, root_param=None):
         raise CheckerError("no match on %s found in %s" % (enum_path, fn.name))
     bi, t, rv = best
     names = {v: n for v, n in rv["variants"]}
-    regions = {}
+    regions = _Regions()
+    regions.explicit = {names.get(v, v) for v, _ in t["targets"]}
     for val, tgt in t["targets"]:
         nm = names.get(val, val)
         regions[nm] = fn.edge_dominated(bi, tgt) if len(fn.pred(tgt)) > 1 else fn.dominated_by(tgt)
@@ -617,3 +623,47 @@ def guard_liveness(fn, guard_kind):
                     IN[s] |= out
                     changed = True
     return OUT_AT_TERM, gen
+
+
+class BuiltinArms:
+    """BuiltInFunction::call and the private per-category helpers it may delegate to (`Self::A | Self::B => self.call_math(..)`):
+    every member has its own match on self; a variant's arm is looked up in the member that handles it last (the helper), and
+    results are reported under the canonical name BuiltInFunction::call so that keys do not depend on the split."""
+    BCALL = "blots_core::functions::BuiltInFunction::call"
+    ENUM = "blots_core::functions::BuiltInFunction"
+    API = {"call", "arity", "name", "from_ident", "all", "all_names", "is_built_in_function"}
+
+    def __init__(self, core, cg):
+        self.members = {}
+        names = [self.BCALL] + sorted(c for c in cg.out.get(self.BCALL, ()) if c.startswith(self.ENUM + "::") and c != self.BCALL and c.split("::")[-1] not in self.API and "{closure" not in c)
+        for n in names:
+            if n not in cg.fns:
+                continue
+            fn = Fn(cg.fns[n], n)
+            try:
+                regions, _ = variant_regions(fn, self.ENUM, root_param=1)
+            except CheckerError:
+                if n == self.BCALL:
+                    raise
+                continue
+            self.members[n] = (fn, regions)
+
+    def canonical(self, name):
+        base = name.split("::{closure")[0]
+        return self.BCALL + name[len(base):] if base in self.members else name
+
+    def arm(self, name, block):
+        m = self.members.get(name)
+        if not m:
+            return []
+        ex = getattr(m[1], "explicit", None)
+        return [v for v in region_of(m[1], block) if ex is None or v in ex or name == self.BCALL]
+
+    def region(self, variant):
+        """(Fn, blocks) of the arm that really handles the variant: a helper's arm if call() only delegates"""
+        best = None
+        for n, (fn, regions) in self.members.items():
+            if variant in regions and (variant in getattr(regions, "explicit", ()) or n == self.BCALL):
+                if best is None or n != self.BCALL:
+                    best = (fn, regions[variant])
+        return best
